@@ -109,6 +109,7 @@ def equal_rows_key(w, L, outcome):
 
 
 JIT_MODES = {}
+PRIVATE_REPORTED = {}
 
 
 def _is_abort(e):
@@ -650,6 +651,28 @@ def gen_pam_model(rng):
             'props': props, 'jit': int(rng.integers(0, 2 ** 31)), 'mode': mode}
 
 
+class PrivateAPIChanged(Exception):
+    """a private helper the harness drives no longer has the parameters it is called with"""
+
+
+def private_params(fn, names):
+    """check (inspect.signature) that the private helper takes every name as a keyword"""
+    import inspect
+    try:
+        params = inspect.signature(fn).parameters
+    except (TypeError, ValueError) as e:
+        raise PrivateAPIChanged('%s has no inspectable signature: %s' % (getattr(fn, '__name__', fn), e))
+    if any(p.kind == p.VAR_KEYWORD for p in params.values()):
+        return
+    miss = [n for n in names if n not in params or params[n].kind == params[n].POSITIONAL_ONLY]
+    if miss:
+        raise PrivateAPIChanged('%s no longer takes %s (signature %s)'
+                                % (fn.__name__, miss, list(params)))
+
+
+PAM_PARAMS = ('X', 'metric', 'medoid_inds', 'assignments', 'distances', 'proposals', 'cost', 'random_state')
+
+
 def _recording_random_state(seed):
     class Rec(np.random.RandomState):
         """records every randint draw (rank 0's draws are the model's oracle)"""
@@ -707,6 +730,20 @@ def prep_pam_model(ctx, case):
             lprops = lprops + [lprops[0]] if g.random() < 0.5 or k == 1 else lprops[:-1]
     valid = pm in ('member', 'any', 'random')
     drawlog = {}
+    try:
+        pam_update = getattr(kmedoids, '_kmedoids_pam_update', None)
+        if pam_update is None:
+            raise PrivateAPIChanged('enspara.cluster.kmedoids._kmedoids_pam_update does not exist')
+        private_params(pam_update, PAM_PARAMS)
+    except PrivateAPIChanged as e:
+        msg = str(e)
+
+        def gone(resps):
+            ctx.case(case, nontrivial=False, tags=['pam-model', 'private-helper-changed'])
+            if not PRIVATE_REPORTED.get('pam'):
+                PRIVATE_REPORTED['pam'] = True
+                ctx.disagreement('the private PAM sweep cannot be driven any more: %s' % msg, case)
+        return [], gone
 
     def fn(r):
         loc = X[ids[r]].copy()
@@ -720,12 +757,15 @@ def prep_pam_model(ctx, case):
         sweeps, costs = [], []
 
         def cost(x):
-            c = kmedoids._msq(x)
+            # `_msq` = the striped mean of the squares (public op); the recorded values are used for model
+            # correspondence only -- how often and in which order the sweep evaluates the cost is its own business
+            c = mpi.ops.striped_array_mean(np.square(x))
             costs.append(float(c))
             return c
         for it in range(iters):
-            inds, d, a, coords = kmedoids._kmedoids_pam_update(
-                loc, metric, inds, a, d, proposals=(None if lprops is None else [tuple(p) for p in lprops]),
+            inds, d, a, coords = pam_update(
+                X=loc, metric=metric, medoid_inds=inds, assignments=a, distances=d,
+                proposals=(None if lprops is None else [tuple(p) for p in lprops]),
                 cost=cost, random_state=rs)
             sweeps.append({'ctrs': [[int(x), int(y)] for x, y in inds], 'dist': [float(x) for x in d],
                            'assign': to_int_list(a), 'adtype': str(np.asarray(a).dtype),
@@ -785,43 +825,53 @@ def prep_pam_model(ctx, case):
         frac = lambda q: Fraction(q[0], q[1])
         R0 = out.results[0]
 
-        # --- (P1) every rank holds the same medoid pairs / medoid frames and took the same decisions
-        flags = lambda res: [res['costs'][2 * j + 1] < res['costs'][2 * j] for j in range(len(res['costs']) // 2)]
+        # --- (P1) every rank returns the same medoid pairs and medoid frames after every sweep (observable
+        # outputs only; which decisions were taken shows in the medoids: step j only ever changes medoid j)
         for r, res in enumerate(out.results):
             if [sw['ctrs'] for sw in res['sweeps']] != [sw['ctrs'] for sw in R0['sweeps']] or \
                     [sw['coords'] for sw in res['sweeps']] != [sw['coords'] for sw in R0['sweeps']]:
                 ctx.violation('distributed PAM: rank %d and rank 0 hold different medoids after a sweep' % r, case)
                 return
-            if len(res['costs']) != 2 * iters * k or flags(res) != flags(R0):
-                ctx.violation('distributed PAM: rank %d and rank 0 took different accept/reject decisions (%s vs %s)'
-                              % (r, flags(res), flags(R0)), case)
-                return
 
-        def refines_serial(ys_per_sweep):
+        def reassembled(it):
+            ra = np.empty(N, dtype=int)
+            rd = np.empty(N)
+            for rr in range(w):
+                # every rank holds only its slice; the serial definition of the layout puts them back
+                ra[ids[rr]] = out.results[rr]['sweeps'][it]['assign']
+                rd[ids[rr]] = out.results[rr]['sweeps'][it]['dist']
+            return ra, rd
+
+        # --- (P4) the global cost (serial definition, on the reassembled outputs) never increases from sweep to sweep
+        hist = [float(np.sum(np.square(d0)) / N)] + \
+               [float(np.sum(np.square(reassembled(it)[1])) / N) for it in range(iters)]
+        if any(hist[i + 1] > hist[i] for i in range(len(hist) - 1)):
+            ctx.violation('distributed PAM raised the global cost of the reassembled state from sweep to sweep: %s'
+                          % hist, case)
+            return
+
+        def refines_serial(ys_per_sweep, report):
             """(P2) the serial sweeps on the concatenated data, handed the global frames of the proposals the
             ranks used, give the reassembled distributed state after every sweep; (P3) Consistent from a
-            consistent start; (P4) the global cost never increases"""
+            consistent start.  `report` is ctx.violation when the proposals are the ones the harness passed in,
+            ctx.disagreement when they are known through the model and recorded RNG draws only."""
             a, d, c = a0.copy(), d0.copy(), list(c0)
-            scosts = []
-
-            def scost(x):
-                v = float(np.sum(np.square(x)) / len(x))       # the serial definition of the cost
-                scosts.append(v)
-                return v
             for it in range(iters):
-                c, d, a, _ = kmedoids._kmedoids_pam_update(X, metric, list(c), a, d, proposals=list(ys_per_sweep[it]),
-                                                           cost=scost)
-                ra = np.empty(N, dtype=int)
-                rd = np.empty(N)
-                for rr in range(w):
-                    # every rank holds only its slice; the serial definition of the layout puts them back
-                    ra[ids[rr]] = out.results[rr]['sweeps'][it]['assign']
-                    rd[ids[rr]] = out.results[rr]['sweeps'][it]['dist']
+                try:
+                    c, d, a, _ = pam_update(X=X, metric=metric, medoid_inds=list(c), assignments=a, distances=d,
+                                            proposals=list(ys_per_sweep[it]),
+                                            cost=lambda x: float(np.sum(np.square(x)) / len(x)),
+                                            random_state=None)
+                except Exception as e:  # noqa
+                    ctx.disagreement('the serial PAM sweep (private helper, same proposals) raised %s: %s'
+                                     % (type(e).__name__, str(e)[:160]), case)
+                    return False
+                ra, rd = reassembled(it)
                 rc = [ids[p[0]][p[1]] for p in R0['sweeps'][it]['ctrs']]
                 if rc != to_int_list(c) or to_int_list(ra) != to_int_list(a) or \
                         [float(x) for x in rd] != [float(x) for x in d]:
-                    ctx.violation('sweep %d: the distributed PAM sweep differs from the serial sweep with the same '
-                                  'proposals on the concatenated data' % it, case)
+                    report('sweep %d: the distributed PAM sweep differs from the serial sweep with the same '
+                           'proposals on the concatenated data' % it, case)
                     return False
                 if R0['sweeps'][it]['coords'] != [float(x) for x in rc]:
                     ctx.violation('sweep %d: the broadcast medoid frames are not the data at the medoid pairs' % it, case)
@@ -830,27 +880,16 @@ def prep_pam_model(ctx, case):
                     if not consistent(ctx, case, D, to_int_list(c), to_int_list(a), [float(x) for x in d], k,
                                       'distributed PAM sweep %d on %d ranks' % (it, w)):
                         return False
-            for r, res in enumerate(out.results):
-                if len(res['costs']) != len(scosts) or any(abs(x - y) > 1e-9 * max(1.0, abs(y))
-                                                           for x, y in zip(res['costs'], scosts)):
-                    ctx.violation('rank %d: the cost (striped mean of squared distances) seen by the distributed PAM '
-                                  'step differs from the serial cost on the whole data' % r, case)
-                    return False
-            cs = R0['costs']
-            hist = [cs[0]] + [min(cs[2 * j], cs[2 * j + 1]) for j in range(len(cs) // 2)]
-            if any(hist[i + 1] > hist[i] for i in range(len(hist) - 1)):
-                ctx.violation('distributed PAM raised the global cost along its history %s' % hist, case)
-                return False
             if R0['full'] is not None:
                 for r, res in enumerate(out.results):
                     f = res['full']
                     if f['rc'] != to_int_list(c) or f['ra'] != to_int_list(a) or f['rd'] != [float(x) for x in d]:
-                        ctx.violation('rank %d: kmedoids() under MPI (warm start, proposals) + reassembly differs from '
-                                      'the serial sweeps' % r, case)
+                        report('rank %d: kmedoids() under MPI (warm start, proposals) + reassembly differs from '
+                               'the serial sweeps' % r, case)
                         return False
             return True
 
-        if gprops is not None and not refines_serial([gprops] * iters):
+        if gprops is not None and not refines_serial([gprops] * iters, ctx.violation):
             return
         # --- exact per-rank correspondence with the model, sweep by sweep
         if 'ok' not in mi:
@@ -877,17 +916,26 @@ def prep_pam_model(ctx, case):
                 if [Fraction(x) for x in real['dist']] != [frac(q) for q in mod['dist'][r]]:
                     ctx.disagreement('Model.MpiPam vs _kmedoids_pam_update, %s: local distances' % what, case)
                     return
-            # two cost calls per step: (old, new); accept flag = new < old
-            cs = res['costs']
-            for j, st in enumerate(steps):
-                old, new = cs[2 * j], cs[2 * j + 1]
-                if (new < old) != st['acc']:
-                    ctx.disagreement('Model.MpiPam vs _kmedoids_pam_update, rank %d step %d: accept flag %s vs %s'
-                                     % (r, j, st['acc'], new < old), case)
-                    return
-                if abs(float(frac(st['old'])) - old) > 1e-9 * max(1.0, abs(old)) or \
-                        abs(float(frac(st['new'])) - new) > 1e-9 * max(1.0, abs(new)):
-                    ctx.disagreement('Model.MpiPam vs _kmedoids_pam_update, rank %d step %d: global cost' % (r, j), case)
+            # accept flags from the OBSERVABLE medoids: step j of a sweep only ever replaces medoid j, by its
+            # proposal; so a changed medoid j means "accepted", and "rejected" means it is unchanged
+            prev = ctrs0
+            for it in range(iters):
+                now = res['sweeps'][it]['ctrs']
+                for j in range(k):
+                    st = steps[it * k + j]
+                    changed = list(now[j]) != list(prev[j])
+                    if changed and not st['acc'] or (st['acc'] and not changed and list(st['p']) != list(prev[j])):
+                        ctx.disagreement('Model.MpiPam vs _kmedoids_pam_update, rank %d sweep %d center %d: model '
+                                         'accept flag %s, medoid %s -> %s' % (r, it, j, st['acc'], prev[j], now[j]), case)
+                        return
+                prev = now
+            # every cost the sweep evaluated through its `cost` hook is one of the model's global costs (how
+            # many of them it evaluates, and in which order, is not compared)
+            mcosts = [float(frac(st[key])) for st in steps for key in ('old', 'new')]
+            for x in res['costs']:
+                if not any(abs(x - y) <= 1e-9 * max(1.0, abs(y)) for y in mcosts):
+                    ctx.disagreement('Model.MpiPam vs _kmedoids_pam_update, rank %d: the sweep evaluated a global '
+                                     'cost %r that is none of the model\'s %s' % (r, x, sorted(set(mcosts))), case)
                     return
         if lprops is not None and [st['p'] for st in steps] != lprops * iters:
             ctx.disagreement('Model.MpiPam: trace proposals differ from the given proposals', case)
@@ -909,7 +957,7 @@ def prep_pam_model(ctx, case):
                 ctx.disagreement('Model.MpiPam: recorded draws left over (%s)' % m['oracle'], case)
                 return
             # the proposals the ranks drew are known through the model only (it agrees with every rank's state)
-            if not refines_serial(ys):
+            if not refines_serial(ys, ctx.disagreement):
                 return
         # --- kmedoids() itself (warm start through ctr_ids_mpi) against the model's kmedoids entry
         if R0['full'] is not None:
@@ -1332,9 +1380,9 @@ def prep_randind(ctx, case):
             self.v = v
             self.asked = None
 
-        def randint(self, low, *a, **k):
-            self.asked = int(low)
-            return self.v
+        def randint(self, low, high=None, *a, **k):
+            self.asked = int(low) if high is None else int(high) - int(low)
+            return self.v if high is None else self.v + int(low)
     outs = []
     for g in range(max(tot, 1)):
         def fn(r, g=g):
@@ -1371,8 +1419,13 @@ def prep_randind(ctx, case):
             if any(res[0] != p for res in o.results):
                 ctx.violation('randind: ranks disagree on the chosen element for draw %d' % g, case)
                 return
-            if o.results[0][1] != tot or any(res[1] is not None for res in o.results[1:]):
-                ctx.violation('randind: the draw is not randint(total) on rank 0 only', case)
+            if o.results[0][1] != tot:
+                # the stub RandomState did not see randint(total) on rank 0: the draw is not under the harness's
+                # control, nothing below can be evaluated (instrumentation, not a predicate on outputs)
+                if not PRIVATE_REPORTED.get('randind-draw'):
+                    PRIVATE_REPORTED['randind-draw'] = True
+                    ctx.disagreement('randind no longer draws random_state.randint(total) on rank 0 (stub saw %s): '
+                                     'the draw cannot be enumerated' % o.results[0][1], case)
                 return
             if not (0 <= p[0] < w and 0 <= p[1] < lens[p[0]]):
                 ctx.violation('randind: draw %d gives %s, not an element of the striped array' % (g, p), case)
@@ -1390,8 +1443,12 @@ def prep_randind(ctx, case):
             ctx.disagreement('Model.Mpi.randind vs randind over the whole enumeration', case)
             return
         g = int(np.random.RandomState(case['seed'] % 2 ** 31).randint(tot))
-        if not oseed.ok or any(tuple(res) != got[g] for res in oseed.results):
-            ctx.violation('randind with a seeded RandomState does not use randint(total)', case)
+        if not oseed.ok:
+            ctx.violation('randind with a seeded RandomState failed: %s' % oseed.describe(), case)
+        elif any(tuple(res) != tuple(oseed.results[0]) for res in oseed.results):
+            ctx.violation('randind with a seeded RandomState: ranks disagree on the chosen element', case)
+        elif tuple(oseed.results[0]) != got[g]:
+            ctx.disagreement('randind with a seeded RandomState does not pick element randint(total) of the seed', case)
     return reqs, finish
 
 
@@ -2040,8 +2097,10 @@ def prep_randind_big(ctx, case):
             super().__init__(0)
             self.v = v
 
-        def randint(self, low, *a, **k):
-            return self.v
+        def randint(self, low, high=None, *a, **k):
+            USED['n'] += 1
+            return self.v if high is None else self.v + int(low)
+    USED = {'n': 0}
     seed = case['seed'] % 2 ** 31
 
     def fn(r):
@@ -2057,14 +2116,26 @@ def prep_randind_big(ctx, case):
         if not out.ok:
             ctx.violation('randind on %d elements failed: %s' % (n, out.describe()), case)
             return
+        if any(got != out.results[0] for got in out.results):
+            ctx.violation('randind on %d elements: ranks disagree on the chosen elements' % n, case)
+            return
+        if any(not (0 <= o < w and 0 <= i < lens[o]) for o, i in out.results[0]):
+            ctx.violation('randind on %d elements returns something that is not an element of the array' % n, case)
+            return
+        if USED['n'] < len(draws):
+            if not PRIVATE_REPORTED.get('randind-draw'):
+                PRIVATE_REPORTED['randind-draw'] = True
+                ctx.disagreement('randind no longer draws through random_state.randint: the draw cannot be chosen', case)
+            return
+        exp = [(g % w, g // w) for g in draws]
+        got = out.results[0][:len(draws)]
+        if got != exp:
+            bad = [(g, a, b) for g, a, b in zip(draws, got, exp) if a != b][:3]
+            ctx.violation('randind on a packed array of %d elements maps draw -> element wrongly: %s' % (n, bad), case)
+            return
         gs = int(np.random.RandomState(seed).randint(n))
-        exp = [(g % w, g // w) for g in draws] + [(gs % w, gs // w)]
-        for r, got in enumerate(out.results):
-            if got != exp:
-                bad = [(g, a, b) for g, a, b in zip(draws + [gs], got, exp) if a != b][:3]
-                ctx.violation('randind on a packed array of %d elements: rank %d maps draw -> element wrongly: %s'
-                              % (n, r, bad), case)
-                return
+        if out.results[0][-1] != (gs % w, gs // w):
+            ctx.disagreement('randind(random_state=int seed) does not pick element randint(total) of that seed', case)
     return [], finish
 
 
